@@ -390,7 +390,9 @@ func runChanOps(ops []int) (in *chanInst, obs string, viol *chanViolation, at in
 }
 
 func (c *ctx) chanReport(in *chanInst, ops []int, v *chanViolation) {
+	normalized := false
 	if in != nil && v.chp1 > 0 && in.zeroPolled[v.chp1-1] && v.kind != "panic" {
+		normalized = true
 		// one defect, one class: once isSendPending has been called again on a
 		// zero-length message in the transmission slot, that message is gone; what
 		// is observed afterwards on this channel (nothing arrives / the next message
@@ -401,16 +403,8 @@ func (c *ctx) chanReport(in *chanInst, ops []int, v *chanViolation) {
 	if v.site != "" {
 		sig["site"] = v.site
 	}
-	usesPoll := false
-	for _, o := range ops {
-		if o == opPoll0 || o == opPoll1 {
-			usesPoll = true
-		}
-	}
-	if usesPoll {
+	if normalized {
 		sig["repeated_isSendPending"] = "yes"
-	} else {
-		sig["repeated_isSendPending"] = "no"
 	}
 	c.report(sig, kase{Part: "chan", Ops: ops}, fmt.Sprintf("history: %s :: %s", opNames(ops), v.detail))
 }
